@@ -2,6 +2,8 @@ import WacModel.Parser
 import WacModel.AstJson
 import WacProofs.Lemmas.Screen
 import WacProofs.Lemmas.ParseSpans2
+import WacProofs.Lemmas.NoFuel
+import WacProofs.Lemmas.LexFuel
 /-
   C14 — no input crashes the front end; diagnostics point inside the source.
 
@@ -12,10 +14,13 @@ import WacProofs.Lemmas.ParseSpans2
     * `eof_span_in_source`: the end-of-input adjustment of `Lexer::span` yields a span inside the
       source on character boundaries (the last character; the empty span for an empty source);
     * `diagnostics_in_source`: the span of every diagnostic `Document::parse` can return lies
-      inside the source, on character boundaries.
-  Partial (kept visible below): boundaries for `InvalidVersion` (in-bounds is proved), the spans
-  inside *trees*, fuel sufficiency and the unreachability of the model's `Panic` sites, the Rust
-  stack — those are observed by the supervised harness and by the driver on every case.
+      inside the source, on character boundaries;
+    * `parse_never_panics`: none of the Rust parser's panic sites is reachable in the model.
+    * `fuel_sufficient`: the fuel the model gives itself is enough — `Document::parse` (model) never
+      answers `OutOfFuel`, and the lexer's token list does not depend on its fuel: the model neither
+      loops nor gets stuck, for every input.
+  Not covered by a theorem: the spans inside *trees* (checked on every case by the harness and by
+  the driver's monitor), the Rust stack, resolve/decode/encode — observed by the supervised harness.
 -/
 namespace Wac.Props.C14
 open Wac Wac.Lex Wac.Parse Wac.Ast Wac.Lemmas Wac.Lemmas.LexSpans Wac.Lemmas.ParseSpans
@@ -53,30 +58,29 @@ theorem eof_span_in_source {src : Str} {st : PState} (hi : Inv src st) : InSourc
 example : ((PState.init "aé".toList).next.2.next.2.next.2.span, (PState.init []).span, (PState.init []).next.2.span) =
     (⟨1, 2⟩, ⟨0, 0⟩, ⟨0, 0⟩) := by decide
 
+/-- every diagnostic of the model of `Document::parse` is "good": its span is the byte range of a
+sub-list of the source, and it is not a `Panic` outcome -/
+theorem parseDocument_goodErr (src : Str) (e : ParseError) (h : parseDocument src = .error e) : GoodErr src e := by
+  unfold parseDocument at h
+  cases hd : detectInvalidInput src with
+  | some p =>
+    obtain ⟨e0, sp⟩ := p
+    simp [hd] at h
+    obtain ⟨pre, c, post, h1, _, _, h4⟩ := (Wac.Lemmas.Screen.go_spec src 0).2 e0 sp (by simpa [detectInvalidInput] using hd)
+    subst h
+    exact ⟨[c], pre, post, by simp [h1], by simp [h4], by simp [h4]⟩
+  | none =>
+    simp [hd] at h
+    exact parseTokens_err h
+
 /-- C14 "every source location carried by a diagnostic lies within the source, on character
-boundaries": for every text, whatever `Document::parse` (model) rejects it with.
-FULL statement: `InSource src sp` for the span of every diagnostic.
-Proved: that, for every diagnostic except `InvalidVersion`, for which only
-`offset + len ≤ |src|` is proved (its span starts inside a token; the boundary needs the fact
-that package tokens are ASCII, which is left to the correspondence). -/
-theorem diagnostics_in_source_partial (src : Str) (e : ParseError) (h : parseDocument src = .error e) :
-    match e with
-    | .InvalidVersion _ sp => sp.offset + sp.len ≤ utf8Len src
-    | e => ∀ sp, Wac.Json.errorSpan e = some sp → InSource src sp := by
-  have hg : GoodErr src e := by
-    unfold parseDocument at h
-    cases hd : detectInvalidInput src with
-    | some p =>
-      obtain ⟨e0, sp⟩ := p
-      simp [hd] at h
-      obtain ⟨pre, c, post, h1, _, _, h4⟩ := (Wac.Lemmas.Screen.go_spec src 0).2 e0 sp (by simpa [detectInvalidInput] using hd)
-      subst h
-      exact ⟨[c], pre, post, by simp [h1], by simp [h4], by simp [h4]⟩
-    | none =>
-      simp [hd] at h
-      exact parseTokens_err h
+boundaries": for every text, whatever the model of `Document::parse` rejects it with (the code-point
+screen, lexical errors, `Expected…` with the end-of-input adjustment, `EmptyType`,
+`InvalidVersion`). -/
+theorem diagnostics_in_source (src : Str) (e : ParseError) (h : parseDocument src = .error e) :
+    ∀ sp, Wac.Json.errorSpan e = some sp → InSource src sp := by
+  have hg := parseDocument_goodErr src e h
   cases e <;> simp only [GoodErr] at hg <;> first
-    | exact hg
     | (intro sp hsp; simp [Wac.Json.errorSpan] at hsp; subst hsp; exact goodSpan_inSource hg)
     | (intro sp hsp; simp [Wac.Json.errorSpan] at hsp)
 
@@ -87,5 +91,25 @@ example : (match parseDocument [] with
 example : (match parseDocument "package foo:bar // é".toList with
     | .error (.Expected .Semicolon none ⟨19, 2⟩) => true
     | _ => false) = true := by decide
+
+/-- C14 "never loop forever" for the model: every loop and recursion of the lexer/parser model is
+structurally recursive on a fuel counter (so the functions are total), and the fuel is sufficient:
+the parser never reports `OutOfFuel`, and the token list is the same with any larger lexer fuel. -/
+theorem fuel_sufficient (src : Str) :
+    parseDocument src ≠ .error .OutOfFuel ∧
+    ∀ extra, lexAll (src.length + 1 + extra) 0 src 0 src = tokenize src := by
+  refine ⟨?_, Wac.Lemmas.LexFuel.tokenize_fuel_sufficient src⟩
+  unfold parseDocument
+  split
+  · simp
+  · exact Wac.Lemmas.NoFuel.parseTokens_nf _
+
+/-- C14 "never panic" for the model.  The parser model turns the panic sites of the Rust parser
+(`Lookahead::error` without attempts, `lexer.next().unwrap()` after a successful lookahead,
+`assert!(!types.is_empty())`, `s.find('/').unwrap()` on a package path) into `Panic site` values;
+none of them is reachable, for any input. -/
+theorem parse_never_panics (src : Str) (site : String) : parseDocument src ≠ .error (.Panic site) := by
+  intro h
+  exact parseDocument_goodErr src _ h
 
 end Wac.Props.C14
